@@ -1,6 +1,7 @@
 /- Driver target `ed`: the editor model on a scripted key stream. -/
 import Rl.Wire
 import Rl.Editor
+import Rl.Sqlite
 import Rl.Drv.Keys
 namespace Rl.Drv.Editor
 open Rl Rl.Wire Rl.Drv.Keys
@@ -156,8 +157,24 @@ def showOutcome : Outcome → String
   | .eof => "eof" | .interrupted => "int" | .io => "io" | .invalidData => "invalid"
   | .helperError => "helper-err" | .panic => "panic" | .fuel => "model-out-of-fuel"
 
-/-- request: `ed <mode> <cols> <flags> <hist> <left> <right> <helper> <binds> key…` -/
-def handleCore (tbl : CharTable) (f : List String) : Option (String × EdCfg) :=
+/-- the history field of target `ed07s`: `[<n>!]<texts>` — the texts are handed to
+    `SQLiteHistory::add` in order (default configuration: `max_history_size` 100, `ignore_space`
+    off, duplicates replaced through the unique index), then `set_max_len(n)` is called if the
+    prefix `<n>!` is present.  Result: the surviving entries in row order and their row store. -/
+def parseSqliteHist (ws : Char → Bool) (field : String) : Option (List Text × RowStore) := do
+  let (trim, texts) ← match field.splitOn "!" with
+    | [t] => pure (none, t)
+    | [n, t] => do pure (some (← n.toNat?), t)
+    | _ => none
+  let adds ← parseTexts texts
+  let h0 := Sq.Hist.openDb { maxLen := 100, ignoreSpace := false, ignoreDups := true } {}
+  let h1 := adds.foldl (fun h l => (h.add ws l).1) h0
+  let h2 := match trim with | some n => h1.setMaxLen n | none => h1
+  pure (h2.db.rows.map (·.entry), { idx := h2.db.rows.map (fun r => r.rowid - 1), len := h2.len })
+
+/-- request: `ed <mode> <cols> <flags> <hist> <left> <right> <helper> <binds> key…`;
+    `sqlite`: the history field is that of `ed07s` and the history is a row store -/
+def handleCore (tbl : CharTable) (f : List String) (sqlite : Bool := false) : Option (String × EdCfg) :=
   match f with
   | mode :: cols :: flags :: hist :: left :: right :: helper :: binds :: keys => do
     let vi ← if mode == "e" then some false else if mode == "v" then some true else none
@@ -165,7 +182,8 @@ def handleCore (tbl : CharTable) (f : List String) : Option (String × EdCfg) :=
     if cols < 2 then none
     let flags := if flags == "-" then "" else flags
     if !(flags.toList.all (fun c => "tplBsr".toList.contains c)) then none
-    let hist ← parseTexts hist
+    let (hist, rows) ← if sqlite then (parseSqliteHist tbl.ws hist).map (fun p => (p.1, some p.2))
+                       else (parseTexts hist).map (fun h => (h, none))
     let left ← parseText left
     let right ← parseText right
     let h ← parseHelper helper
@@ -174,7 +192,7 @@ def handleCore (tbl : CharTable) (f : List String) : Option (String × EdCfg) :=
     let input : Input :=
       if flags.contains 't' then { buf := [], avail := [], future := if chunks.flatten.isEmpty then [] else [chunks.flatten] }
       else { buf := [], avail := [], future := chunks }
-    let cfg := mkCfg vi cols flags hist h binds
+    let cfg := { mkCfg vi cols flags hist h binds with histRows := rows }
     let S := uaxSeg (clsOf tbl)
     let U := udataOf tbl
     let (o, s) := readline S U cfg (KillRing.new 60) left right input
